@@ -32,7 +32,8 @@ class CFG:
         self.entry = self._new(None, 'entry')
         self.exit = self._new(None, 'exit')
         self.raise_exit = self._new(None, 'raise')
-        self.stmt_node = {}      # id(ast stmt) -> Node
+        self.stmt_node = {}      # id(ast stmt) -> Node (the normal-flow copy when a finally body is duplicated)
+        self.stmt_nodes = {}     # id(ast stmt) -> [all Node copies]
         ends = self._block(fnode.body, [(self.entry, None)], ctx={'loop': None, 'handlers': []})
         for e, lab in ends:
             self._edge(e, self.exit, lab)
@@ -45,7 +46,8 @@ class CFG:
         self.nodes.append(n)
         self.succ[n.id], self.pred[n.id] = [], []
         if stmt is not None and kind in ('stmt', 'test', 'iter', 'with', 'return', 'raise_stmt'):
-            self.stmt_node.setdefault(id(stmt), n)
+            self.stmt_node[id(stmt)] = n          # last created = normal-flow copy
+            self.stmt_nodes.setdefault(id(stmt), []).append(n)
         return n
 
     def _edge(self, a, b, lab=None):
@@ -190,6 +192,9 @@ class CFG:
     # ------------------------------------------------------------------ queries
     def node_of(self, stmt):
         return self.stmt_node.get(id(stmt))
+
+    def nodes_of(self, stmt):
+        return self.stmt_nodes.get(id(stmt), [])
 
     def reachable_from(self, nid, avoid=None):
         seen = {nid}
